@@ -167,3 +167,120 @@ func tokenLitsIn(p *Prog, fn *ssa.Function) []tokenLit {
 	}
 	return out
 }
+
+// roleUse is one place where non-predicate code tests a token's role against a constant: a direct
+// comparison tok.role ==/!= c, or a call of a predicate helper (a bool function over a token that does the
+// comparison itself or forwards to one that does), with the role constant resolved at the call.
+type roleUse struct {
+	fn   *ssa.Function
+	in   ssa.Instruction
+	role string // the constant's exact string
+}
+
+type roleSumEntry struct {
+	role  string // constant role, or
+	param int    // index of the parameter compared with the role (when role == "")
+	in    ssa.Instruction
+}
+
+// isTokenPredicate: a bool-valued function one of whose parameters is a *token / token.
+func isTokenPredicate(p *Prog, f *ssa.Function) bool {
+	res := f.Signature.Results()
+	if res.Len() != 1 {
+		return false
+	}
+	if b, ok := res.At(0).Type().Underlying().(*types.Basic); !ok || b.Kind() != types.Bool {
+		return false
+	}
+	for _, prm := range f.Params {
+		if isTokenStruct(p, prm.Type()) {
+			return true
+		}
+	}
+	return false
+}
+
+func roleUses(p *Prog) []roleUse {
+	sums := map[*ssa.Function][]roleSumEntry{}
+	has := func(f *ssa.Function, e roleSumEntry) bool {
+		for _, x := range sums[f] {
+			if x.role == e.role && x.param == e.param && x.in == e.in {
+				return true
+			}
+		}
+		return false
+	}
+	paramIdx := func(f *ssa.Function, v ssa.Value) int {
+		for i, prm := range f.Params {
+			if v == ssa.Value(prm) {
+				return i
+			}
+		}
+		return -1
+	}
+	for changed, round := true, 0; changed && round < 8; round++ {
+		changed = false
+		for _, f := range p.RList {
+			add := func(e roleSumEntry) {
+				if !has(f, e) {
+					sums[f] = append(sums[f], e)
+					changed = true
+				}
+			}
+			for _, b := range f.Blocks {
+				for _, in := range b.Instrs {
+					switch t := in.(type) {
+					case *ssa.BinOp:
+						if t.Op != token.EQL && t.Op != token.NEQ {
+							continue
+						}
+						for _, pair := range [][2]ssa.Value{{t.X, t.Y}, {t.Y, t.X}} {
+							ld, ok := pair[0].(*ssa.UnOp)
+							if !ok || ld.Op != token.MUL {
+								continue
+							}
+							fa, ok := ld.X.(*ssa.FieldAddr)
+							if !ok || !isTokenStruct(p, fa.X.Type()) || fieldOf(fa).Field != "role" {
+								continue
+							}
+							if c, ok := pair[1].(*ssa.Const); ok && c.Value != nil {
+								add(roleSumEntry{role: c.Value.ExactString(), param: -1, in: in})
+							} else if i := paramIdx(f, pair[1]); i >= 0 {
+								add(roleSumEntry{param: i, in: in})
+							}
+						}
+					case *ssa.Call:
+						g := t.Call.StaticCallee()
+						if g == nil || !isTokenPredicate(p, g) {
+							continue
+						}
+						for _, e := range sums[g] {
+							switch {
+							case e.role != "":
+								add(roleSumEntry{role: e.role, param: -1, in: in})
+							case e.param < len(t.Call.Args):
+								if c, ok := t.Call.Args[e.param].(*ssa.Const); ok && c.Value != nil {
+									add(roleSumEntry{role: c.Value.ExactString(), param: -1, in: in})
+								} else if i := paramIdx(f, t.Call.Args[e.param]); i >= 0 {
+									add(roleSumEntry{param: i, in: in})
+								}
+							}
+						}
+					}
+				}
+			}
+		}
+	}
+	var out []roleUse
+	for _, f := range p.RList {
+		if isTokenPredicate(p, f) {
+			continue // lifted to its call sites
+		}
+		for _, e := range sums[f] {
+			if e.role != "" {
+				out = append(out, roleUse{f, e.in, e.role})
+			}
+		}
+	}
+	return out
+}
